@@ -150,6 +150,14 @@ func (in *Interp) unop(fr *frame, x *ssa.UnOp) Value {
 			return in.tt.BVNot(y)
 		}
 	case token.ARROW:
+		if ch, ok := v.(*Chan); ok && ch != nil && ch.ctx == nil {
+			c := ch
+			in.block("chan recv", func() bool { return c.closed })
+			if x.CommaOk {
+				return Tuple{in.zero(x.Type().(*types.Tuple).At(0).Type()), false}
+			}
+			return in.zero(x.Type())
+		}
 		if ch, ok := v.(*Chan); ok && ch != nil && ch.ctx != nil {
 			if in.ctxCancelled(fr, ch.ctx) {
 				if x.CommaOk {
@@ -1354,52 +1362,65 @@ func (in *Interp) next(fr *frame, x *ssa.Next) Value {
 
 // ------------------------------------------------------------------
 
-func (in *Interp) selectOp(fr *frame, x *ssa.Select) Value {
-	// supported: receive cases on ctx.Done() channels, with or without default
-	res := Tuple{Int(uint64(0)), false}
-	for range x.States {
-		res = append(res, nil)
+func (in *Interp) chanReady(fr *frame, ch *Chan) bool {
+	if ch == nil {
+		return false
 	}
-	for i, st := range x.States {
+	if ch.closed {
+		return true
+	}
+	return ch.ctx != nil && in.ctxCancelled(fr, ch.ctx)
+}
+
+func (in *Interp) selectOp(fr *frame, x *ssa.Select) Value {
+	// supported: receive cases on ctx.Done() channels and on channels that are
+	// only ever closed, with or without default
+	mk := func() Tuple {
+		res := Tuple{Int(uint64(0)), false}
+		for _, st := range x.States {
+			res = append(res, in.zero(st.Chan.Type().Underlying().(*types.Chan).Elem()))
+		}
+		return res
+	}
+	var chans []*Chan
+	for _, st := range x.States {
 		if st.Dir != types.RecvOnly {
 			in.unsupported("select send")
 		}
 		ch, _ := fr.get(st.Chan).(*Chan)
-		if ch == nil || ch.ctx == nil {
-			continue
+		chans = append(chans, ch)
+	}
+	try := func() (Tuple, bool) {
+		for i, ch := range chans {
+			if ch != nil && ch.ctx != nil {
+				in.emit("poll", ch.ctx.String(), fmt.Sprint(in.ctxCancelled(fr, ch.ctx)))
+			}
+			if in.chanReady(fr, ch) {
+				res := mk()
+				res[0] = Int(uint64(i))
+				return res, true
+			}
 		}
-		if !x.Blocking || true {
-			in.emit("poll", ch.ctx.String(), fmt.Sprint(in.ctxCancelled(fr, ch.ctx)))
-		}
-		if in.ctxCancelled(fr, ch.ctx) {
-			res[0] = Int(uint64(i))
-			res[2+i] = in.zero(st.Chan.Type().Underlying().(*types.Chan).Elem())
-			return res
-		}
+		return nil, false
+	}
+	if r, ok := try(); ok {
+		return r
 	}
 	if !x.Blocking {
-		res[0] = normInt(uint64(0xFFFFFFFFFFFFFFFF), 64, true) // -1
-		for i, st := range x.States {
-			res[2+i] = in.zero(st.Chan.Type().Underlying().(*types.Chan).Elem())
-		}
+		res := mk()
+		res[0] = normInt(^uint64(0), 64, true) // -1
 		return res
 	}
-	// blocking select over ctx.Done() channels
-	var ctxs []*Obj
-	for _, st := range x.States {
-		if ch, _ := fr.get(st.Chan).(*Chan); ch != nil && ch.ctx != nil {
-			ctxs = append(ctxs, ch.ctx)
-		}
-	}
 	in.block("select", func() bool {
-		for _, c := range ctxs {
-			if in.ctxCancelled(fr, c) {
+		for _, ch := range chans {
+			if in.chanReady(fr, ch) {
 				return true
 			}
 		}
 		return false
 	})
-	return in.selectOp(fr, x)
+	r, _ := try()
+	return r
 }
 
 // ------------------------------------------------------------------
@@ -1458,6 +1479,17 @@ func (in *Interp) builtin(fr *frame, b *ssa.Builtin, args []Value, site ssa.Inst
 				in.unsupported("delete with symbolic key")
 			}
 		}
+		return nil
+	case "close":
+		ch, _ := args[0].(*Chan)
+		if ch == nil {
+			fr.tpanic("explicit", CStr("close of nil channel"))
+		}
+		if ch.closed {
+			fr.tpanic("explicit", CStr("close of closed channel"))
+		}
+		ch.closed = true
+		in.emit("chan.close", fmt.Sprintf("chan#%d", ch.id))
 		return nil
 	case "print", "println":
 		return nil
